@@ -210,16 +210,10 @@ func readBufioSize(reader *bufio.Reader, size int64) ([]byte, error, bool) {
 }
 
 func readBufioLine(reader *bufio.Reader) ([]byte, error, bool) {
-	result := []byte{}
-	var buf []byte
-	var err error
-	var isprefix bool = true
-	for isprefix {
-		buf, isprefix, err = reader.ReadLine()
-		if err != nil {
-			break
-		}
-		result = append(result, buf...)
+	// a line ends with "\n" and only that is removed (a preceding "\r" is data)
+	result, err := reader.ReadBytes('\n')
+	if n := len(result); n > 0 && result[n-1] == '\n' {
+		return result[:n-1], nil, false
 	}
 	e := err
 	if e != nil && e == io.EOF {
